@@ -105,6 +105,17 @@ func (w *World) canon(v ssa.Value, d int) string {
 		return w.canon(x.X, d+1) + "." + fieldName(x.X.Type(), x.Field)
 	case *ssa.Field:
 		switch y := x.X.(type) {
+		case *ssa.Parameter:
+			// a parameter object handed to a helper by value: the field as the caller filled it in
+			if av, ok := w.structArg[y]; ok {
+				if ld, isLd := av.(*ssa.UnOp); isLd && ld.Op == token.MUL {
+					if a, isA := ld.X.(*ssa.Alloc); isA && privateStruct(a) {
+						if s, ok := w.canonFieldCell(a, x.Field, ld, d); ok {
+							return s
+						}
+					}
+				}
+			}
 		case *ssa.UnOp:
 			// a field of a local parameter object loaded as a whole
 			if a, ok := y.X.(*ssa.Alloc); ok && y.Op == token.MUL && privateStruct(a) {
@@ -527,6 +538,10 @@ func (w *World) callerEnvs(fn *ssa.Function, d int) []map[*ssa.Parameter]string 
 		if c.Site == nil || c.Site.Common().StaticCallee() == nil || len(c.Site.Common().Args) != len(fn.Params) {
 			return []map[*ssa.Parameter]string{nil}
 		}
+		if len(cs) == 1 {
+			// (kept for the lifetime of the analysis: a helper with one call site)
+			w.bindStructArgs(fn, c.Site.Common().Args)
+		}
 		for _, outer := range w.callerEnvs(c.Caller, d+1) {
 			if outer != nil {
 				w.inlineEnv = append(w.inlineEnv, outer)
@@ -598,6 +613,41 @@ func (w *World) canonCallArgsI(c *ssa.CallCommon) string {
 		name = o.Name()
 	}
 	return w.Canon(c.Args[0]) + "." + name + "(" + strings.Join(as, ", ") + ")"
+}
+
+// bindStructArgs records, for the struct-typed parameters of cal, the argument
+// values of a call (so that a field of the parameter prints as the caller filled
+// it in); the returned function restores the previous bindings.
+func (w *World) bindStructArgs(cal *ssa.Function, args []ssa.Value) func() {
+	type saved struct {
+		p   *ssa.Parameter
+		v   ssa.Value
+		had bool
+	}
+	var undo []saved
+	for i, p := range cal.Params {
+		if i >= len(args) {
+			break
+		}
+		if _, isS := p.Type().Underlying().(*types.Struct); !isS {
+			continue
+		}
+		if w.structArg == nil {
+			w.structArg = map[*ssa.Parameter]ssa.Value{}
+		}
+		old, had := w.structArg[p]
+		undo = append(undo, saved{p, old, had})
+		w.structArg[p] = args[i]
+	}
+	return func() {
+		for _, u := range undo {
+			if u.had {
+				w.structArg[u.p] = u.v
+			} else {
+				delete(w.structArg, u.p)
+			}
+		}
+	}
 }
 
 // CanonDeep: CanonI with helpers inlined through up to six levels.
@@ -810,6 +860,19 @@ func (w *World) canonFieldCell(a *ssa.Alloc, f int, at ssa.Instruction, d int) (
 						if s, ok := w.canonStructResultFieldAt(c, ex.Index, tup.Len(), f, d+1); ok {
 							set[s] = true
 							continue
+						}
+					}
+				}
+			}
+			// a parameter object received by value: the field as the caller filled it in
+			if pr, isP := wd.Value.(*ssa.Parameter); isP {
+				if av, ok := w.structArg[pr]; ok {
+					if ld, isLd := av.(*ssa.UnOp); isLd && ld.Op == token.MUL {
+						if a2, isA := ld.X.(*ssa.Alloc); isA && privateStruct(a2) {
+							if s, ok := w.canonFieldCell(a2, f, ld, d+1); ok {
+								set[s] = true
+								continue
+							}
 						}
 					}
 				}
